@@ -779,3 +779,21 @@ func TestEnum(t *testing.T) {
 }
 
 var _ = sort.Ints
+
+// FuzzTilePath: arbitrary strings through ParseTilePath (success => canonical and in range).
+func FuzzTilePath(f *testing.F) {
+	for _, s := range []string{"tile/3/4/x001/x234/067.p/1", "tile/3/4/x001/x234/067", "tile/8/data/000", "tile/1/0/000.p/1", "tile/30/63/x999/999"} {
+		f.Add(s)
+	}
+	f.Fuzz(func(t *testing.T, s string) {
+		c := pathCase{Str: s}
+		if s == "" {
+			return
+		}
+		res := checkTilePath(c)
+		pbt.Count("fuzz-tilepath", c, res)
+		if res.Fail != nil {
+			pbt.ReportFuzz(t, "path", c, res.Fail)
+		}
+	})
+}
